@@ -127,16 +127,15 @@ class IPv6FlowSpec(NLRI):
         """
         prefix_value = prefix.get('prefix')
         ip, masklen = prefix_value.split('/')
-        ip_hex = netaddr.IPAddress(ip).packed
         offset = prefix.get('offset')
         masklen = int(masklen)
 
-        # lenght
-        ip_hex = ip_hex[: math.ceil(masklen / 8)]
-
-        # offset
-        ip_hex = ip_hex[math.floor(offset / 8):]
-        # ip_hex = ip_hex[]
+        # the pattern is the (masklen - offset) bits that follow the offset, left-aligned and padded
+        # with zero bits to an octet boundary (RFC 8956 section 3.1)
+        pattern_len = masklen - offset
+        pattern = (int(netaddr.IPAddress(ip)) >> (128 - masklen)) & ((1 << pattern_len) - 1)
+        octet_len = int(math.ceil(pattern_len / 8.0))
+        ip_hex = binascii.a2b_hex('%0*x' % (octet_len * 2, pattern << (octet_len * 8 - pattern_len))) if octet_len else b''
 
         return struct.pack('!B', masklen) + struct.pack('!B', offset) + ip_hex
 
